@@ -1778,3 +1778,228 @@ theorem refines_all : ∀ n, Refines n
       refines_body ih, refines_tail ih⟩
 
 end Ruschm.Ref
+
+namespace Ruschm.Eval
+open Ref (DefsSeq MapEvals bindRest chain chainAux frameBinding)
+
+/-! ## Procedure bodies: inversion -/
+
+theorem EvalsDefs.nil_inv {σ ρ r σ'} (h : EvalsDefs σ ρ [] r σ') : r = .ok () ∧ σ' = σ := by
+  obtain ⟨_, N, hN⟩ := h.out
+  have h := hN (N+1) (by omega)
+  rw [evalDefs] at h; cases h; exact ⟨rfl, rfl⟩
+
+theorem EvalsDefs.cons_inv {σ ρ x e l ds r σ'} (h : EvalsDefs σ ρ (.mk x e l :: ds) r σ') :
+    (∃ er, Evals σ ρ e (.error er) σ' ∧ r = .error er) ∨
+    (∃ v σ₁, Evals σ ρ e (.ok v) σ₁ ∧ EvalsDefs (σ₁.define ρ x v) ρ ds r σ') := by
+  obtain ⟨hr, N, hN⟩ := h.out
+  clear h
+  have h := hN (N+1) (by omega)
+  clear hN
+  rw [evalDefs] at h
+  split at h
+  next er σ₁ heq => cases h; exact .inl ⟨er, Evals.intro heq hr.cast, rfl⟩
+  next v σ₁ heq => exact .inr ⟨v, σ₁, Evals.intro heq (by simp), EvalsDefs.intro h hr⟩
+
+/-- `evalDefs` is `DefsSeq` of `Evals`: each definition is evaluated in frame `ρ` after the earlier
+ones have been bound there -/
+theorem evalsDefs_iff_defsSeq {σ ρ ds r σ'} :
+    EvalsDefs σ ρ ds r σ' ↔ DefsSeq (fun σ e r σ' => Evals σ ρ e r σ') ρ σ ds r σ' := by
+  induction ds generalizing σ with
+  | nil =>
+    simp only [DefsSeq]
+    exact ⟨fun h => h.nil_inv, fun ⟨h₁, h₂⟩ => h₁ ▸ h₂ ▸ EvalsDefs.nil⟩
+  | cons d ds ih =>
+    obtain ⟨x, e, l⟩ := d
+    simp only [DefsSeq]
+    constructor
+    · intro h
+      rcases h.cons_inv with ⟨er, h₁, rfl⟩ | ⟨v, σ₁, h₁, h₂⟩
+      · exact .inl ⟨er, h₁, rfl⟩
+      · exact .inr ⟨v, σ₁, h₁, ih.mp h₂⟩
+    · rintro (⟨er, h₁, rfl⟩ | ⟨v, σ₁, h₁, h₂⟩)
+      · exact .cons_err h₁
+      · exact .cons h₁ (ih.mpr h₂)
+
+theorem EvalsBody.last_inv {σ ρ e r σ'} (h : EvalsBody σ ρ [e] r σ') : EvalsTail σ ρ e r σ' := by
+  obtain ⟨hr, N, hN⟩ := h.out
+  have h := hN (N+1) (by omega)
+  rw [evalBody] at h
+  exact EvalsTail.intro h hr
+
+theorem EvalsBody.cons_inv {σ ρ e e' es r σ'} (h : EvalsBody σ ρ (e :: e' :: es) r σ') :
+    (∃ er, Evals σ ρ e (.error er) σ' ∧ r = .error er) ∨
+    (∃ v σ₁, Evals σ ρ e (.ok v) σ₁ ∧ EvalsBody σ₁ ρ (e' :: es) r σ') := by
+  obtain ⟨hr, N, hN⟩ := h.out
+  clear h
+  have h := hN (N+1) (by omega)
+  clear hN
+  rw [evalBody] at h
+  · split at h
+    next er σ₁ heq => cases h; exact .inl ⟨er, Evals.intro heq hr.cast, rfl⟩
+    next v σ₁ heq => exact .inr ⟨v, σ₁, Evals.intro heq (by simp), EvalsBody.intro h hr⟩
+  · simp
+
+/-- a body `e₁ … eₖ last`: the `eᵢ` in order (values dropped, first error stops), then `last` as the
+tail expression -/
+theorem evalsBody_iff {σ ρ es last r σ'} :
+    EvalsBody σ ρ (es ++ [last]) r σ' ↔
+      (∃ er, MapEvals (fun σ e r σ' => Evals σ ρ e r σ') σ es (.error er) σ' ∧ r = .error er) ∨
+      (∃ vs σ₁, MapEvals (fun σ e r σ' => Evals σ ρ e r σ') σ es (.ok vs) σ₁ ∧ EvalsTail σ₁ ρ last r σ') := by
+  induction es generalizing σ with
+  | nil =>
+    simp only [List.nil_append, MapEvals]
+    constructor
+    · intro h; exact .inr ⟨[], σ, ⟨rfl, rfl⟩, h.last_inv⟩
+    · rintro (⟨er, ⟨h, _⟩, _⟩ | ⟨vs, σ₁, ⟨_, rfl⟩, h⟩)
+      · cases h
+      · exact .last h
+  | cons e es ih =>
+    have hne : ∃ e' es', es ++ [last] = e' :: es' := by
+      cases es with
+      | nil => exact ⟨last, [], rfl⟩
+      | cons a as => exact ⟨a, as ++ [last], rfl⟩
+    obtain ⟨e', es', hes⟩ := hne
+    simp only [List.cons_append, MapEvals]
+    constructor
+    · intro h
+      rw [hes] at h
+      rcases h.cons_inv with ⟨er, h₁, rfl⟩ | ⟨v, σ₁, h₁, h₂⟩
+      · exact .inl ⟨er, .inl ⟨er, h₁, rfl⟩, rfl⟩
+      · rw [← hes] at h₂
+        rcases ih.mp h₂ with ⟨er, h₃, rfl⟩ | ⟨vs, σ₂, h₃, h₄⟩
+        · exact .inl ⟨er, .inr ⟨v, σ₁, h₁, .inl ⟨er, h₃, rfl⟩⟩, rfl⟩
+        · exact .inr ⟨v :: vs, σ₂, .inr ⟨v, σ₁, h₁, .inr ⟨vs, h₃, rfl⟩⟩, h₄⟩
+    · rw [hes]
+      rintro (⟨er, (⟨er', h₁, he⟩ | ⟨v, σ₁, h₁, (⟨er', h₃, he⟩ | ⟨vs, _, he⟩)⟩), rfl⟩ |
+              ⟨vs, σ₂, (⟨er', _, he⟩ | ⟨v, σ₁, h₁, (⟨er', _, he⟩ | ⟨vs', h₃, he⟩)⟩), h₄⟩)
+      · cases he; exact .cons_err h₁
+      · cases he
+        refine .cons h₁ ?_
+        rw [← hes]; exact ih.mpr (.inl ⟨_, h₃, rfl⟩)
+      · cases he
+      · cases he
+      · cases he
+      · cases he
+        refine .cons h₁ ?_
+        rw [← hes]; exact ih.mpr (.inr ⟨_, _, h₃, h₄⟩)
+
+theorem bindFixed_error_ne_fuel {σ ρ fs as e σ₁} (h : bindFixed σ ρ fs as = (.error e, σ₁)) : e ≠ .fuel := by
+  induction fs generalizing σ as with
+  | nil => simp [bindFixed] at h
+  | cons f fs ih =>
+    cases as with
+    | nil => simp only [bindFixed, Prod.mk.injEq, Except.error.injEq] at h; rw [← h.1]; simp
+    | cons a as => simp only [bindFixed] at h; exact ih h
+
+theorem AppliesScheme.bind_err {σ lam cenv args e σ₁}
+    (hb : bindFixed (σ.newFrame (some cenv)).2 (σ.newFrame (some cenv)).1 lam.formals.fixed args = (.error e, σ₁)) :
+    AppliesScheme σ lam cenv args (.error (e, none)) σ₁ :=
+  Stable.of_succ (.error_of (bindFixed_error_ne_fuel hb)) 0 fun n _ => by
+    show applyScheme (n+1) _ _ _ _ = _
+    rw [applyScheme_succ]; simp only [hb]
+
+theorem AppliesScheme.inv {σ lam cenv args rt σ'} (h : AppliesScheme σ lam cenv args rt σ') :
+    (∃ e σ₁, bindFixed (σ.newFrame (some cenv)).2 (σ.newFrame (some cenv)).1 lam.formals.fixed args = (.error e, σ₁) ∧
+      rt = .error (e, none) ∧ σ' = σ₁) ∨
+    (∃ restArgs σ₁, bindFixed (σ.newFrame (some cenv)).2 (σ.newFrame (some cenv)).1 lam.formals.fixed args = (.ok restArgs, σ₁) ∧
+      ((∃ er, EvalsDefs (bindRest σ₁ (σ.newFrame (some cenv)).1 lam.formals.rest restArgs) (σ.newFrame (some cenv)).1
+            lam.defs (.error er) σ' ∧ rt = .error er) ∨
+       (∃ σ₂, EvalsDefs (bindRest σ₁ (σ.newFrame (some cenv)).1 lam.formals.rest restArgs) (σ.newFrame (some cenv)).1
+            lam.defs (.ok ()) σ₂ ∧ EvalsBody σ₂ (σ.newFrame (some cenv)).1 lam.body rt σ'))) := by
+  obtain ⟨hr, N, hN⟩ := h.out
+  clear h
+  have h := hN (N+1) (by omega)
+  clear hN
+  rw [applyScheme_succ] at h
+  split at h
+  next e σ₁ hb => cases h; exact .inl ⟨e, _, hb, rfl, rfl⟩
+  next restArgs σ₁ hb =>
+    refine .inr ⟨restArgs, σ₁, hb, ?_⟩
+    split at h
+    next er σ₂ hd => cases h; exact .inl ⟨er, EvalsDefs.intro hd hr.cast, rfl⟩
+    next σ₂ hd => exact .inr ⟨σ₂, EvalsDefs.intro hd (by simp), EvalsBody.intro h hr⟩
+
+theorem Evals.lambda_inv {σ ρ lam l r σ'} (h : Evals σ ρ (.lambda lam l) r σ') : r = .ok (.closure lam ρ) ∧ σ' = σ := by
+  obtain ⟨_, N, hN⟩ := h.out
+  have h := hN (N+1) (by omega)
+  rw [evalExpr] at h; cases h; exact ⟨rfl, rfl⟩
+
+end Ruschm.Eval
+
+namespace Ruschm.Eval
+open Ref (DefsSeq MapEvals bindRest chain chainAux frameBinding)
+
+/-! ## `define` and the frames -/
+
+theorem defsInsert_lookup (defs : List (String × Value)) (k : String) (v : Value) (k' : String) :
+    (Store.defsInsert defs k v).lookup k' = if k' = k then some v else defs.lookup k' := by
+  have hbeq : ∀ a : String, (k' == a) = decide (k' = a) := fun a => by
+    by_cases h : k' = a <;> simp [h]
+  induction defs with
+  | nil =>
+    simp only [Store.defsInsert, List.lookup, hbeq]
+    by_cases h : k' = k <;> simp [h]
+  | cons a defs ih =>
+    obtain ⟨a, b⟩ := a
+    simp only [Store.defsInsert]
+    by_cases ha : a = k
+    · subst ha
+      simp only [if_true, List.lookup, hbeq]
+      by_cases h : k' = a <;> simp [h]
+    · simp only [ha, if_false, List.lookup, ih, hbeq]
+      by_cases h' : k' = a
+      · subst h'; simp [ha]
+      · simp [h']
+
+theorem frames_define_getElem? (σ : Store) (ρ : Nat) (x : String) (v : Value) (i : Nat) :
+    (σ.define ρ x v).frames[i]? =
+      if i = ρ then (σ.frames[i]?).map (fun f => { f with defs := Store.defsInsert f.defs x v }) else σ.frames[i]? := by
+  unfold Store.define
+  by_cases hρ : ρ < σ.frames.size
+  · simp only [hρ, dite_true, Array.getElem?_modify]
+    by_cases h : ρ = i
+    · subst h; simp
+    · have : ¬ i = ρ := fun h' => h h'.symm
+      simp [h, this]
+  · simp only [hρ, dite_false]
+    by_cases h : i = ρ
+    · subst h
+      have : σ.frames[i]? = none := by simp; omega
+      simp [this]
+    · simp [h]
+
+/-- after `define ρ x v`, frame `ρ` binds `x` to `v`; every other (frame, name) is unchanged -/
+theorem frameBinding_define {σ : Store} {ρ : Nat} (hρ : ρ < σ.frames.size) (x : String) (v : Value) (y : String) (i : Nat) :
+    frameBinding (σ.define ρ x v) y i = if i = ρ ∧ y = x then some v else frameBinding σ y i := by
+  simp only [frameBinding, frames_define_getElem?]
+  by_cases hi : i = ρ
+  · subst hi
+    have : ∃ f, σ.frames[i]? = some f := ⟨σ.frames[i], by simp [hρ]⟩
+    obtain ⟨f, hf⟩ := this
+    simp only [hf, if_true, Option.map_some, Option.bind_some, defsInsert_lookup, true_and]
+  · simp [hi]
+
+theorem frames_size_define (σ : Store) (ρ x v) : (σ.define ρ x v).frames.size = σ.frames.size := by
+  unfold Store.define; split <;> simp
+
+theorem chainAux_define (σ : Store) (ρ x v) (k i : Nat) : chainAux (σ.define ρ x v) k i = chainAux σ k i := by
+  induction k generalizing i with
+  | zero => rfl
+  | succ k ih =>
+    simp only [chainAux, frames_define_getElem?]
+    by_cases h : i = ρ
+    · subst h
+      cases hf : σ.frames[i]? with
+      | none => simp
+      | some f => simp [ih]
+    · simp only [h, if_false]
+      cases hf : σ.frames[i]? with
+      | none => simp
+      | some f => simp [ih]
+
+/-- `define` changes no parent link: every parent chain is what it was -/
+theorem chain_define (σ : Store) (ρ x v) (i : Nat) : chain (σ.define ρ x v) i = chain σ i := by
+  unfold chain; rw [frames_size_define, chainAux_define]
+
+end Ruschm.Eval
